@@ -64,6 +64,41 @@ def classify(e, originals):
     return ('transformed', str(p)[:100])
 
 
+NORMAL_FORM_ROWS = [
+    # (how the text is supplied, the input, the lines the tokenizer must get)
+    ('str', 'a\nb\n', ['a\n', 'b\n']), ('str', 'a\nb', ['a\n', 'b\n']), ('str', '', []), ('str', '\n', ['\n']),
+    ('str', 'a', ['a\n']), ('str', 'a\n\nb', ['a\n', '\n', 'b\n']), ('str', '\n\na', ['\n', '\n', 'a\n']),
+    ('str', 'a  \nb\t', ['a  \n', 'b\t\n']), ('str', '  a\n', ['  a\n']), ('str', 'a\r\nb', ['a\r\n', 'b\n']),
+    ('list', ['a\n', 'b'], ['a\n', 'b\n']), ('list', [], []), ('list', ['a', 'b'], ['a\n', 'b\n']),
+    ('list', ['\n', '  a \n', ''], ['\n', '  a \n', '\n']),
+    ('iterable', ['a', 'b\n', '\n'], ['a\n', 'b\n', '\n']), ('iterable', [], []),
+]
+
+
+def _normal_form_table(model):
+    """Document.__init__ folded on one input of every class of "how a text can be supplied" (NORMAL_FORM_ROWS):
+    rows on which the tokenizer does not get each line once, in order, completed by a newline if it lacks one."""
+    from ..interp import GenList
+    doc = model.cls('block_token.Document')
+    bt = model.func('block_token.tokenize')
+    bad = []
+    for kind, inp, want in NORMAL_FORM_ROWS:
+        it = Interp(model, loop_bound=16)
+        it.reset_run(Oracle())
+        rec = {}
+        it.func_hooks[bt.qualname] = lambda interp, fi, args, kwargs, rec=rec: rec.setdefault('arg', args[0]) and []
+        arg = GenList(list(inp)) if kind == 'iterable' else (list(inp) if kind == 'list' else inp)
+        try:
+            it.construct(doc, [arg], {})
+            got = rec.get('arg')
+            got = list(got) if isinstance(got, (list, tuple)) else repr(got)
+        except Raised as e:
+            got = 'raises %s' % e.exc.kind
+        if got != want:
+            bad.append((kind, inp, got, want))
+    return bad
+
+
 def rule_normal_form(ctx, rep):
     model = ctx.model
     rep.rule('R-NORMAL-FORM', 'one normaliser: line itself if it ends in a newline, else line + newline; nothing else')
@@ -71,6 +106,35 @@ def rule_normal_form(ctx, rep):
     init = doc.methods['__init__']
     unit = model.unit_of(doc)
     bt = model.func('block_token.tokenize')
+    # the table decides the classes of inputs; the abstract interpretation below decides the same clause for every
+    # text, where it can follow the code. A spelling it cannot follow is not a finding when the table holds.
+    table_bad = _normal_form_table(model)
+    rep.instance('R-NORMAL-FORM')
+    rep.obligation('R-NORMAL-FORM', not table_bad, {'table rows': len(NORMAL_FORM_ROWS), 'rows that differ': [repr(b[1])[:40] for b in table_bad]})
+    if table_bad:
+        kind, inp, got, want = table_bad[0]
+        rep.find('R-NORMAL-FORM', init.short, 'normaliser(%s)' % kind,
+                 'for the %s input %r the tokenizer gets %r; expected %r: each line once, in order, unchanged if it ends with a '
+                 'newline, else with a newline appended (%d of %d rows differ)' % (kind, inp, got, want, len(table_bad), len(NORMAL_FORM_ROWS)),
+                 loc(unit, init.node), witness=repr(inp))
+    undecided = []
+    outer_rep = rep
+    real_find = outer_rep.find
+
+    class _Quiet:
+        # findings of the abstract part are kept only when the table fails as well
+        def find(self, rule, where, construct, message, *a, **k):
+            if table_bad:
+                real_find(rule, where, construct, message, *a, **k)
+            else:
+                undecided.append(construct)
+
+        def obligation(self, rule, ok, detail):
+            outer_rep.obligation(rule, ok or not table_bad, detail)
+
+        def __getattr__(self, name):
+            return getattr(outer_rep, name)
+    rep = _Quiet()
     for kind in ('str', 'list', 'iterable'):
         rep.instance('R-NORMAL-FORM')
         n = 0
@@ -141,6 +205,7 @@ def rule_normal_form(ctx, rep):
                          'ends with a newline, else with a newline appended, and nothing else'
                          % (kind, [str(k) for k in kinds]), loc(unit, init.node))
         rep.floor('R-NORMAL-FORM/' + kind, n, 1)
+    outer_rep.extra['normal_form_not_followed_abstractly'] = sorted(set(undecided))
 
 
 class Rec(AbstractValue):
